@@ -11,7 +11,7 @@ from typing import Any
 import z3
 
 from . import sym
-from .values import (HeapList, BoundBuiltin, BoundMethod, BuiltinRef, ClassRef, Closure, ExcVal, FuncRef, ModuleRef, NOTIMPL,
+from .values import (SDict, HeapList, BoundBuiltin, BoundMethod, BuiltinRef, ClassRef, Closure, ExcVal, FuncRef, ModuleRef, NOTIMPL,
                      Obj, Opaque, PDict, PList, SArr, SBool, SInt, SMap, SName, SOpt, SReal, SSeq, SSet, SStrOpaque,
                      SpecFn, Unsupported, num_term, real_term)
 
@@ -589,6 +589,8 @@ class Models:
             return self.key(item) in container.items
         if isinstance(container, SMap):
             return self.mkbool(container.indom(self.name_term(item)))
+        if isinstance(container, SDict):
+            return self.mkbool(z3.Select(container.keys, self.name_term(item)))
         if isinstance(container, SSet):
             return self.mkbool(container.member(ip.schema.name_of(ip, item)))
         if isinstance(container, str):
@@ -654,6 +656,11 @@ class Models:
             if not ip.path.branch(o.indom(nm), f"key in {o.desc}"):
                 ip.raise_exc("KeyError", k)
             return o.lookup(nm)
+        if isinstance(o, SDict):
+            nm = self.name_term(k)
+            if not ip.path.branch(z3.Select(o.keys, nm), "key in dict"):
+                ip.raise_exc("KeyError", k)
+            return SReal(z3.Select(o.vals, nm), "float")
         if isinstance(o, SSeq):
             if isinstance(k, slice):
                 return self.slice_seq(ip, o, k)
@@ -740,6 +747,11 @@ class Models:
             return
         if isinstance(o, PDict):
             o.items[self.key(k)] = v
+            return
+        if isinstance(o, SDict):
+            nm = self.name_term(k)
+            o.keys = z3.Store(o.keys, nm, z3.BoolVal(True))
+            o.vals = z3.Store(o.vals, nm, real_term(v))
             return
         if isinstance(o, SArr):
             if o.shape is None:
@@ -1418,6 +1430,8 @@ class Models:
                     pass
                 if name == "join":
                     return SStrOpaque(("join", recv, args[0]))
+            if name == "join":
+                return SStrOpaque(("join", recv, args[0]))
         if isinstance(recv, SStrOpaque):
             if name == "lower":
                 return SStrOpaque(("lower", recv))
